@@ -141,12 +141,13 @@ def extract_quic_packet(in_packet: Packet, isserver, guessed_dcid: bytes = None,
                         else:
                             hp_key = keys['client_initial_hp']
 
+                        # header protection of Initial packets always uses AES-128 (RFC 9001 5.2, 5.4.3)
                         decrypted_header = remove_header_protection(header_type=QuicHeaderType.LONG,
                                                                     sample=sample,
                                                                     first_packet_byte=header_parts[0],
                                                                     hp_key=hp_key,
                                                                     datagram_data=datagram_data,
-                                                                    pn_offset=pn_offset, ciphersuite=ciphersuite)
+                                                                    pn_offset=pn_offset, ciphersuite=None)
 
                         fmt_string += str(decrypted_header[-1]) + "s"
                         fmt_string += str(int.from_bytes(packet_len, "big") - decrypted_header[-1]) + "s"
